@@ -1239,6 +1239,16 @@ asn1constraint_compute_constraint_range(
 				continue;
 			}
 
+			if(range->empty_constraint) {
+				/*
+				 * Only empty sets were seen so far:
+				 * the union starts with this one.
+				 */
+				while(range->el_count)
+					_range_remove_element(range, 0);
+				range->empty_constraint = 0;
+			}
+
 			_range_merge_in(range, tmp);
 		}
 
